@@ -18,8 +18,20 @@ fn shim_path() -> String {
     format!("{}/build/getrandom_shim.so", verif_dir())
 }
 
+/// A same-length variant of a mapping (different content, identical byte length), if one exists.
+pub fn same_length_variant(m: &[u8]) -> Option<Vec<u8>> {
+    let t = std::str::from_utf8(m).ok()?;
+    let v = t.replace("com.example", "org.exampel").replace("kotlin.jvm", "kotlin.vmj").replace("org.x.Y", "org.y.X").replace("void ", "long ");
+    if v != t && v.len() == t.len() {
+        Some(v.into_bytes())
+    } else {
+        None
+    }
+}
+
 /// The mapping list of a batch: a pure function of (batch_seed, n); corpus files appended.
-pub fn batch_mappings(batch_seed: u64, n: u64, corpus: bool, large: bool) -> Vec<Vec<u8>> {
+/// Also returns the (index, index) pairs of equal-length siblings.
+pub fn batch_mappings(batch_seed: u64, n: u64, corpus: bool, large: bool) -> (Vec<Vec<u8>>, Vec<(usize, usize)>) {
     let mut v: Vec<Vec<u8>> = (0..n)
         .map(|i| {
             let mut rng = Rng::new(run_seed(batch_seed, "C14.mapping", i));
@@ -30,12 +42,29 @@ pub fn batch_mappings(batch_seed: u64, n: u64, corpus: bool, large: bool) -> Vec
     v.push(b"x.A -> a:\n    1:1:void foo(int) -> m\n    2:2:void bar(int) -> m\n    3:3:void baz(int) -> m\n    4:4:void qux(int) -> m\n    void foo(int) -> m\n".to_vec());
     v.push(b"x.A -> a:\n    1:1:void f() -> m\nx.B -> a:\n    void g() -> n\n    void h() -> o\n".to_vec());
     v.push(b"    1:1:void orphan() -> m\nx.A -> a:\n    void g() -> n\n".to_vec());
+    if n > 0 {
+        // one big generated mapping (> 8192 records): size-dependent code paths
+        let mut rng = Rng::new(run_seed(batch_seed, "C14.big", 0));
+        let cfg = gen::GenCfg { max_classes: 420, max_members: 44, pct_long_name: 1, pct_noise: 1, class_pool: 16, ..gen::GenCfg::swarm(&mut rng, 10, 10) };
+        v.push(gen::gen_mapping(&mut rng, &cfg));
+    }
     if corpus {
         for (_, b) in gen::corpus(large) {
             v.push(b);
         }
     }
-    v
+    // equal-length siblings for every 6th mapping that has one
+    let mut pairs = Vec::new();
+    let base = v.len();
+    for i in (0..base).step_by(6) {
+        if v[i].len() < 50_000 {
+            if let Some(var) = same_length_variant(&v[i]) {
+                pairs.push((i, v.len()));
+                v.push(var);
+            }
+        }
+    }
+    (v, pairs)
 }
 
 struct YieldSink<'a> {
@@ -115,8 +144,14 @@ pub fn child_main(args: &[String]) -> i32 {
     let max_threads: u64 = arg_value(args, "--threads-max").and_then(|s| s.parse().ok()).unwrap_or(4);
     let order_seed: u64 = arg_value(args, "--order-seed").and_then(|s| s.parse().ok()).unwrap_or(0);
     let dump: Option<usize> = arg_value(args, "--dump").and_then(|s| s.parse().ok());
-    let mappings: Vec<Vec<u8>> = match arg_value(args, "--mapping-file") {
-        Some(f) => vec![std::fs::read(f).expect("mapping file")],
+    let (mappings, pairs): (Vec<Vec<u8>>, Vec<(usize, usize)>) = match arg_value(args, "--mapping-file") {
+        Some(f) => {
+            let m = std::fs::read(f).expect("mapping file");
+            match same_length_variant(&m) {
+                Some(v) => (vec![m, v], vec![(0, 1)]),
+                None => (vec![m], vec![]),
+            }
+        }
         None => batch_mappings(batch_seed, n, corpus, large),
     };
     // prove the entropy seam: iteration order of a probe set, and a heap address
@@ -181,6 +216,23 @@ pub fn child_main(args: &[String]) -> i32 {
             println!("S {} threads={} steps={} switches={} schedule={:016x}", i, t, steps, switches, sd);
             for (k, o) in outs.iter().enumerate() {
                 emit(&format!("t{}", k), o);
+            }
+        }
+    }
+    // Address reuse: equal-length siblings are copied into ONE reused buffer and serialised back to
+    // back (which sibling comes first is drawn from the seed), so a stale association between a
+    // memory range and earlier content is part of the explored configuration space.
+    let max_len = pairs.iter().map(|(a, b)| mappings[*a].len().max(mappings[*b].len())).max().unwrap_or(0);
+    let mut scratch: Vec<u8> = Vec::with_capacity(max_len + 1);
+    for (a, b) in &pairs {
+        let order = if rng.chance(1, 2) { [*a, *b] } else { [*b, *a] };
+        for (k, i) in order.iter().enumerate() {
+            scratch.clear();
+            scratch.extend_from_slice(&mappings[*i]);
+            let out = write_once(&scratch);
+            match &out {
+                Ok(o) => println!("W {} r{} {:016x} {} {}", i, k, digest_bytes(o), o.len(), implied_len(o)),
+                Err(p) => println!("W {} r{} PANIC 0 0 {}", i, k, panic_class(p).replace(' ', "_")),
             }
         }
     }
@@ -455,8 +507,8 @@ pub fn main(env: &Env) -> i32 {
     let thorough = env.thorough;
     let (n_batches, n, n_children, max_threads) = if thorough { (env.scaled(12), 1500u64, 64u64, 8u64) } else { (1, env.scaled(220), 8u64, 6u64) };
     rep.rule = format!(
-        "{} batch(es); per batch {} seeded-generated mappings (0..12 classes x 0..12 members) + 3 hand-written tie/duplicate/orphan shapes + corpus files are serialised by {} separately started processes, each with its own hash seed, heap layout and processing order; \
-         inside a process every mapping is written twice (heap perturbed in between) and then by 2..{} threads concurrently under the seeded baton (every sink call is a scheduling point, chunk cap drawn from {{inf,64,7}}). \
+        "{} batch(es); per batch {} seeded-generated mappings (0..12 classes x 0..12 members) + 3 hand-written tie/duplicate/orphan shapes + one big generated mapping (> 8192 records) + all corpus files (incl. the 0.7 MB and 2.3 MB ones) + an equal-length sibling for every 6th mapping are serialised by {} separately started processes, each with its own hash seed, heap layout and processing order; \
+         inside a process every mapping is written twice (heap perturbed in between) and then by 2..{} threads concurrently under the seeded baton (every sink call is a scheduling point, chunk cap drawn from {{inf,64,7}}); finally equal-length siblings are copied into one reused buffer and written back to back in seed-dependent order (address reuse). \
          Oracle: all outputs for one mapping are byte-identical (compared by 64-bit digest + length; full bytes re-fetched on mismatch) and as long as their own header implies. \
          distinct_nontrivial = distinct (process, mapping, phase) outputs compared beyond the reference write.",
         n_batches, n, n_children, max_threads
@@ -468,7 +520,7 @@ pub fn main(env: &Env) -> i32 {
     let mut aslr_off_all = true;
     for b in 0..n_batches {
         let batch_seed = run_seed(seed, "C14.batch", b);
-        let children = match run_batch(batch_seed, n, true, thorough, n_children, max_threads, env.workers, None) {
+        let children = match run_batch(batch_seed, n, true, true, n_children, max_threads, env.workers, None) {
             Ok(c) => c,
             Err(e) => {
                 eprintln!("HARNESS-ERROR: {}", e);
@@ -498,13 +550,13 @@ pub fn main(env: &Env) -> i32 {
             }));
         }
         for (class, message, idx, a, bside) in vs.into_iter().take(3) {
-            let mappings = batch_mappings(batch_seed, n, true, thorough);
+            let (mappings, _) = batch_mappings(batch_seed, n, true, true);
             let mapping = mappings.get(idx).cloned().unwrap_or_default();
             let seeds = vec![a.0, bside.0];
             // minimise: does the mapping alone (no history) show it? then shrink its lines.
             let mut case = json!({
                 "mode": "batch",
-                "batch": {"batch_seed": batch_seed.to_string(), "n": n, "corpus": true, "large": thorough, "max_threads": max_threads},
+                "batch": {"batch_seed": batch_seed.to_string(), "n": n, "corpus": true, "large": true, "max_threads": max_threads},
                 "hash_seeds": seeds, "mapping_index": idx, "phases": [a.1, bside.1], "mapping": bytes_to_json(&mapping),
             });
             let mut msg = message.clone();
@@ -556,7 +608,7 @@ pub fn main(env: &Env) -> i32 {
 
 pub fn miri_main(args: &[String]) -> i32 {
     let wseed: u64 = arg_value(args, "--wseed").and_then(|s| s.parse().ok()).unwrap_or(1);
-    let mut mappings: Vec<Vec<u8>> = batch_mappings(wseed, 0, false, false);
+    let mut mappings: Vec<Vec<u8>> = batch_mappings(wseed, 0, false, false).0;
     let mut rng = Rng::new(run_seed(wseed, "C14.miri", 0));
     for _ in 0..2 {
         mappings.push(gen::gen_case(&mut rng, 3, 5).1);
